@@ -60,28 +60,17 @@ def run_replicas(binp, hist, outdir, specs, quiet=False, timeout=3000):
 
 # ---------------------------------------------------------------- classification of a differing step
 
-def _sort_multierror(s):
-    line = r'\\t\* (?:(?!\\n).)*\\n'
-    return re.sub(r'(\d+ errors? occurred:\\n)((?:' + line + r')+)',
-                  lambda m: m.group(1) + "".join(sorted(re.findall(line, m.group(2)))), s)
-
-
-ERROR_CLASSES = [
-    # (class, message types it may occur on, mask)
-    ("service-meta-pair", {0, 8},
-     lambda s: re.sub(r"Couldn't load metadata pair \('.*?', '.*?'\): [^\"\\]*", "Couldn't load metadata pair <PAIR>", s)),
-    ("jwt-provider-lines", {22, 12}, _sort_multierror),
-    ("service-graph-chain", {22, 12},
-     lambda s: re.sub(r'(?:peer exported service|discovery chain) \\"(?:(?!\\").)*\\"[^"\\]*', "<SERVICE-GRAPH-ERROR>", s)),
-]
+# Differences that match an OPEN entry of known_findings.json would be listed here as
+# (class, message types, mask).  There is none: the four order-dependent results found while building
+# this check (UnassignedFrom in map order; error texts naming the first invalid metadata pair, the
+# missing JWT providers, the first failing discovery chain) were repaired in /repo (9d6116b, 7ea9e44,
+# 281c379, 897c9ff) and every result is now compared raw -- list orders and error texts included.
+ERROR_CLASSES = []
 
 
 def step_core(s):
-    """what must agree exactly: the state (delta, hash, row count) and the model-vocabulary projections"""
-    mv = s.get("mvip")
-    if mv:
-        mv = dict(mv, unassigned=sorted(mv["unassigned"]))
-    return (s["delta"], s["sha"], s["rows"], s.get("mres"), mv)
+    """what must agree exactly besides the result: the state (delta, hash, row count) and the projections"""
+    return (s["delta"], s["sha"], s["rows"], s.get("mres"), s.get("mvip"))
 
 
 def classify(entry, sa, sb):
@@ -95,15 +84,10 @@ def classify(entry, sa, sb):
     ra, rb = sa["res"], sb["res"]
     if ra == rb:
         return None
-    ca, cb = sa.get("canon") or ra, sb.get("canon") or rb
     typ = entry.get("type", -1)
-    if ca == cb and "AssignServiceManualVIPsResponse" in ra and typ == 43:
-        return {"known": {"kind": "result-list-map-order", "command": "UpdateVirtualIP", "field": "UnassignedFrom"}}
-    is_err = lambda r: r.startswith("error ") or "Errors:[&{" in r or "Response:<*" in r
-    if is_err(ra) and is_err(rb):
-        for cls, types, mask in ERROR_CLASSES:
-            if typ in types and mask(ra) == mask(rb):
-                return {"known": {"kind": "error-text-map-order", "class": cls}}
+    for cls, types, mask in ERROR_CLASSES:
+        if typ in types and mask(ra) == mask(rb):
+            return {"known": {"kind": "error-text-map-order", "class": cls}}
     return {"violation": "command result differs"}
 
 
@@ -293,9 +277,14 @@ def run(ctx):
         small = entries
         found = None
         try:
-            if unknown_divergence(binp, entries, wd, "v"):
+            first = unknown_divergence(binp, entries, wd, "v", trials=6)
+            if first:
                 small = shrink(binp, entries, wd)
-                found = unknown_divergence(binp, small, wd, "v")
+                # map-order effects show with probability < 1 per run: confirm the shrunk log on more fresh
+                # process pairs, and fall back to the unshrunk prefix if it does not show again
+                found = unknown_divergence(binp, small, wd, "v", trials=10)
+                if not found:
+                    small, found = entries, first
         except vlib.BuildError:
             pass
         obj = {"kind": "replica-divergence", "reason": c.get("violation"), "signature": c.get("signature", {"kind": "unknown-divergence"}),
@@ -385,7 +374,7 @@ def run(ctx):
         "evaluations": len(hists),
         "distinct_nontrivial": nontrivial,
         "generator_now_unix": now_unix,
-        "rule": "histories = scripted (manual virtual IPs taken from 2-3 services at once; rejected commands whose error text is built while ranging over a map) + corpus + generated from the seed: 3/4 'full' profile (5-40 commands drawn from generators for every registered message type, built the way the leader builds them -- Normalize/Validate/SetHash, IDs and timestamps fixed in the command -- against a live FSM so that ~65% of CAS indexes and most references are valid; leadership preamble; chunked commands; ignorable unknown types; log-verifier checkpoints), 1/4 'core' profile (the commands coq/Store/Model.v models). distinct_nontrivial = distinct logs (by content) with at least one state-changing entry",
+        "rule": "histories = scripted (manual virtual IPs taken from 2-3 services at once; rejected commands whose error text is built from the keys of a map -- each repeated 6 times so that a result in map order would show) + corpus + generated from the seed: 3/4 'full' profile (5-40 commands drawn from generators for every registered message type, built the way the leader builds them -- Normalize/Validate/SetHash, IDs and timestamps fixed in the command -- against a live FSM so that ~65% of CAS indexes and most references are valid; leadership preamble; chunked commands; ignorable unknown types; log-verifier checkpoints), 1/4 'core' profile (the commands coq/Store/Model.v models). distinct_nontrivial = distinct logs (by content) with at least one state-changing entry",
         "log_entries_applied_per_replica": steps_total,
         "replicas": [{"name": hd.get("replica"), "gomaxprocs": hd.get("gomaxprocs"), "tz": hd.get("tz"), "plant_delays": hd.get("plant_delays"),
                       "pid": hd.get("pid"), "start_unix_nano": hd.get("start_unix_nano")} for hd in headers],
